@@ -1418,7 +1418,11 @@ def oracle_repo_supercell(path, o, T):
     except Exception as e:
         return "the written %s file cannot be read back by an independent reader: %r" % (sfx, e)
     cell = np.array(src["cell"], dtype=float)
+    cell[np.abs(cell) < 1e-9 * np.abs(cell).max()] = 0.0       # cos(90 degrees) of the CIF angles is 6e-17, not 0
     dims = [int(v) for v in o["replicate"]] if o["replicate"] else [1, 1, 1]
+    if o["mic"] is not None and not cell_is_diag(cell.tolist()):
+        if np.abs(cell - np.diag(np.diag(cell))).max() < 1e-3:
+            return None                              # within rounding of orthorhombic: which branch --mic takes is not decided here
     if o["mic"] is not None and cell_is_diag(cell.tolist()):
         md, margin = spec_mic_dims(fl(o["mic"]), [[cell[i][j] * dims[i] for j in range(3)] for i in range(3)])
         if margin <= 1e-7:
